@@ -600,6 +600,20 @@ def witnesses(rec, tmp):
             rec.violation('regex-delimiter-optional-group-aborts-source', f'witness: {len(got)} rows', {'kind': 'witness'})
     except Exception as e:
         rec.violation('regex-delimiter-optional-group-aborts-source', f'witness: {type(e).__name__}: {e}', {'kind': 'witness'})
+    # the pattern after `regex:` is the user's, character for character - also when it begins with ordinary letters (r, e, g, x ...) or holds a colon
+    for lead, pat in (('entry ', r'entry\s+(\d{2}/\d{2}/\d{4})\s+(.+?)\s+([\d.]+)$'), ('rx:', r'rx:(\d{2}/\d{2}/\d{4})\s+(.+?)\s+([\d.]+)$'),
+                      ('ge ', r'ge (\d{2}/\d{2}/\d{4})\s+(.+?)\s+([\d.]+)$')):
+        with open(p, 'w', newline='') as f:
+            f.write('%s01/05/2024   ALPHA CAFE    4.50\n%s01/06/2024   BETA BOOKS   14.50\nnot a statement line\n' % (lead, lead))
+        try:
+            got = parse(p, {'name': 'Src', 'file': 'x', 'format': '{date:%m/%d/%Y},{description},{amount}', 'has_header': False, 'delimiter': 'regex:' + pat})
+            rec.count('regex_delimiters_that_begin_with_literal_text')
+            if [t['raw_description'] for t in got] != ['ALPHA CAFE', 'BETA BOOKS']:
+                rec.violation('regex-delimiter-row-count-differs:literal-first-pattern', f'delimiter regex:{pat}: read {[t["raw_description"] for t in got]} from two matching lines', {'kind': 'witness'})
+                return
+        except Exception as e:
+            rec.violation('regex-delimiter-row-count-differs:literal-first-pattern', f'delimiter regex:{pat}: {type(e).__name__}: {e}', {'kind': 'witness'})
+            return
 
 
 def replay(rec, case):
